@@ -77,9 +77,10 @@ def last (s : VStack α) : α :=
 def peekLast (s : VStack α) (n : Nat) : α :=
   if s.count > n then s.data.getD (s.count - n - 1) default else default
 
-/-- `clear_until(index)`: returns `last()`, then `count = index` (no bounds check!). -/
+/-- `clear_until(index)`: returns `last()`, then truncates: `if index < count { count = index }`
+(it never raises the height; an `index` at or above the height leaves the stack unchanged). -/
 def clearUntil (s : VStack α) (index : Nat) : VStack α × α :=
-  ({ s with count := index }, s.last)
+  ({ s with count := if index < s.count then index else s.count }, s.last)
 
 /-- `as_slice()` / `iter()`. -/
 def contents (s : VStack α) : List α := s.data.take s.count
